@@ -74,7 +74,7 @@ def _scenario(cfg, victim, at, j):
         def stable():
             for name, (s, key) in st["state"].items():
                 if s == "waiting" and not st["inside"].get(key):
-                    ml = locks._main_lock
+                    ml = getattr(locks, "_main_lock", None)
                     if ml is None or not ml.locked():
                         # somebody else may be between acquire and our bookkeeping only inside one callback; at a stable instant not
                         holders = [n for n, (s2, k2) in st["state"].items() if s2 == "inside" and k2 == key]
@@ -102,8 +102,12 @@ def _scenario(cfg, victim, at, j):
         for name, (s, key) in st["state"].items():
             if s not in ("done", "cancelled"):
                 world.violate("C25.starved", f"task {name} never entered/finished (state {s}) for key {key}")
-        if locks._locks or locks._refs:
-            world.violate("C25.leak", f"lock state remains after all holders and waiters are gone: locks={sorted(locks._locks)} refs={dict(locks._refs)}")
+        # whatever per-key bookkeeping the lock keeps (today: _locks and _refs) must be empty again; looked up generically so that a
+        # restructured KeyedLock is still judged instead of crashing the harness
+        leftover = {k: (sorted(map(str, v)) if not isinstance(v, dict) else {str(a): str(b) for a, b in v.items()})
+                    for k, v in vars(locks).items() if isinstance(v, (dict, set, list)) and v}
+        if leftover:
+            world.violate("C25.leak", f"lock state remains after all holders and waiters are gone: {leftover}")
         return st
     return scenario
 
